@@ -1370,3 +1370,11 @@ func sample(r *Rng, xs []string, k int) []string {
 	}
 	return out
 }
+
+func tkID(auth bool, domain, principal string) string {
+	t := "n"
+	if auth {
+		t = "a"
+	}
+	return t + "/" + XS(domain) + "/" + XS(principal)
+}
